@@ -209,6 +209,12 @@ def _norm_body(src, pat, what):
     return re.sub(r'%\d+ul', '%PERIODul', re.sub(r'\s+', '', blk)), X.lineno(src, m.start())
 
 
+# sampleDirichletDistribution as of repo 7d816c6: identical to the modelled text when the gamma draws do not all underflow to 0
+# (sum != 0) -- the model's theorems (`thompson_rows_valid`, `coop_thompson_posterior`) assume positive draws; the added branch
+# (sum == 0: redraw in log space) is outside that hypothesis and is C08's subject (`dirichletWithFallback_valid`)
+ALT_TEXTS = {'sampleDirichletDistribution': ('{assert(params.size()==out.size());doublesum=0.0;for(size_ti=0;i<static_cast<size_t>(params.size());++i){std::gamma_distribution<double>dist(params[i],1.0);out[i]=dist(generator);sum+=out[i];}if(sum==0.0){doublemax=-std::numeric_limits<double>::infinity();for(size_ti=0;i<static_cast<size_t>(params.size());++i){out[i]=sampleLogGammaDistribution(params[i],generator);max=std::max(max,out[i]);}for(size_ti=0;i<static_cast<size_t>(params.size());++i){out[i]=std::exp(out[i]-max);sum+=out[i];}}out/=sum;}',)}
+
+
 def gen_c07_sites():
     lenient = os.environ.get('AITB_C07_LENIENT_SITES') == '1'
     out, errs, cache = [], [], {}
@@ -218,7 +224,8 @@ def gen_c07_sites():
             got, ln = _norm_body(src, pat, f'{rel}: {name}')
         except X.ExtractError as e:
             errs.append(str(e)); continue
-        if got == want:
+        # a site may have several accepted texts (source forms the model was re-read against)
+        if got == want or got in ALT_TEXTS.get(name, ()):
             out.append((name, rel, ln))
         else:
             errs.append(f'{rel}:{ln}: {name} is not in the form the Lean model was written from: {got[:200]}')
